@@ -2,7 +2,8 @@ import AioslskVerif.Proofs.Dist
 /-!
 # C13 — distributed tree: one parent, bounded live children, truthful advertised place
 
-Property theorems only (model: `Model/Dist.lean`, invariant and helper lemmas: `Proofs/Dist.lean`).
+Property theorems only (model: `Model/Dist.lean`, the derived position `Derived` / `Degenerate`:
+`Spec/DistTree.lean`, invariant and helper lemmas: `Proofs/Dist.lean`).
 Every theorem quantifies over **all** op lists (`run ops`), any number of peers / connections, any values.
 The model is the code with the three proposed fixes `fixes/C13-*.patch` applied.
 
@@ -14,29 +15,6 @@ the parent's connection).
 -/
 namespace AioslskVerif.C13
 open AioslskVerif.Dist
-
-/-- `(a, search)` is the position derived from the current parent, as the property states it -/
-def Derived (s : DState) (me : Name) (a : Adv) (search : Bool) : Prop :=
-  match s.parent with
-  | none => a = ⟨0, me⟩ ∧ search = true
-  | some c => ∃ l r, s.level c = some l ∧ s.root c = some r ∧ a = ⟨l + 1, r⟩ ∧ search = false
-
-/-- the parent announced our own name as its root (describes a cycle, not a position) -/
-def Degenerate (s : DState) (me : Name) : Prop := ∃ c, s.parent = some c ∧ s.root c = some me
-
-theorem adv_derived (s : DState) (me : Name) (h : Inv s) (hd : ¬ Degenerate s me) :
-    Derived s me (s.adv me) s.parent.isNone := by
-  unfold Derived DState.adv
-  cases hp : s.parent with
-  | none => exact ⟨rfl, rfl⟩
-  | some c =>
-    have hc := h.str.parentComplete c hp
-    obtain ⟨l, hl⟩ := Option.isSome_iff_exists.1 hc.1
-    obtain ⟨r, hr⟩ := Option.isSome_iff_exists.1 hc.2
-    have hne : ¬ (s.root c = some me) := fun e => hd ⟨c, hp, e⟩
-    refine ⟨l, r, hl, hr, ?_, rfl⟩
-    rw [hr] at hne
-    simp only [hl, hr, Option.getD_some, if_neg hne]
 
 /-- **At most one parent**: `parent` is a single optional reference, the peer it refers to is registered
 exactly once (no duplicate `DistributedPeer` records), and it has announced both level and root. -/
